@@ -14,7 +14,10 @@ func init() { register("C10", checkC10) }
 func (c *Ctx) reachInPkg(root *ssa.Function, pk *ssa.Package) []*ssa.Function {
 	seen := c.P.Reach([]*ssa.Function{root}, func(from *ssa.Function, cl *core.Call, to *ssa.Function) bool {
 		if to.Package() != pk {
-			return false
+			// a bound-method wrapper (s.topics.dump used as a value) belongs to no package: it is the method it wraps
+			if to.Synthetic == "" || to.Pkg != nil {
+				return false
+			}
 		}
 		if cl != nil && cl.Invoke {
 			return false // interface dispatch stays out: the snapshot path is made of direct calls
@@ -91,6 +94,47 @@ func checkC10(c *Ctx) {
 					}
 					if cl := core.CallOf(in); cl != nil && cl.Static != nil && cl.Static.Package() == d.pkg && appendsField(cl.Static) {
 						anchors = append(anchors, b)
+					}
+				}
+			}
+			// the dumps called through function values collected in LocalState itself (a slice of bound methods ranged
+			// over): the loop is reached on every path and left only through its normal end
+			loops := core.Loops(ls)
+			for _, b := range ls.Blocks {
+				for _, in := range b.Instrs {
+					mc, ok := in.(*ssa.MakeClosure)
+					if !ok {
+						continue
+					}
+					cf, ok := mc.Fn.(*ssa.Function)
+					if !ok || !appendsField(cf) {
+						continue
+					}
+					for _, cl := range core.CallsIn(ls) {
+						if cl.Static != nil || cl.Invoke || cl.Builtin() != "" {
+							continue
+						}
+						l := core.InnermostLoop(loops, cl.Instr.Block())
+						if l == nil || !depReaches(cl.Common.Value, func(v ssa.Value) bool { return v == ssa.Value(mc) }) {
+							continue
+						}
+						early := false
+						for lb := range l.Blocks {
+							for _, sb := range lb.Succs {
+								if !l.Blocks[sb] && lb != l.Header {
+									early = true
+								}
+							}
+						}
+						callEvery := true
+						for _, pr := range l.Header.Preds {
+							if l.Blocks[pr] && !cl.Instr.Block().Dominates(pr) {
+								callEvery = false
+							}
+						}
+						if !early && callEvery && b.Dominates(l.Header) {
+							anchors = append(anchors, l.Header)
+						}
 					}
 				}
 			}
